@@ -91,8 +91,10 @@ def programs():
     P.append(('cache', None,
               [('reset', 'eviction_policy', 'least-recently-stored'), ('reset', 'cull_limit', 3)] +
               [('set', 'e%d' % i, S('e%d' % i, True)) for i in range(6)],
-              [('reset', 'size_limit', 1), ('set', 'f1', S('f1', True)), ('add', 'f2', L('f2', True)), ('push', S('f3', True), None, 'back'),
-               ('incr', 'cnt', 1), ('cull',)]))
+              # (the child's handle is opened with policy 'none' like every C07 handle: the program switches it itself)
+              [('reset', 'eviction_policy', 'least-recently-stored'), ('reset', 'cull_limit', 3), ('reset', 'size_limit', 1),
+               ('set', 'f1', S('f1', True)), ('add', 'f2', L('f2', True)), ('push', S('f3', True), None, 'back'),
+               ('incr', 'cnt', 1), ('block', [('set', 'f4', S('f4', True)), ('set', 'f5', S('f5'))]), ('cull',)]))
     P.append(('deque', 5, [('append', S('d%d' % i, i % 2 == 0)) for i in range(5)],
               [('maxlen', 2), ('remove', crash.payload('d4', True)), ('maxlen', 4), ('extendleft', [1, 2, 3])]))
     P.append(('deque', 2, [('append', S('d0', True)), ('append', S('d1', True))],
@@ -211,7 +213,8 @@ def judge(dc, res, d, kind, maxlen, acceptable, label, wit):
         res.violation('after the kill the contents are neither the state before nor after the interrupted operation',
                       dict(wit, got=got[:12], acceptable=[a[:12] for a in acceptable[:3]]))
         return False
-    cache = dc.Cache(d, timeout=5)
+    # (cull_limit 0: the write below must not evict or cull anything by itself - some programs leave a tiny size limit)
+    cache = dc.Cache(d, timeout=5, cull_limit=0)
     try:
         warns = cache.check()
         bad = [str(w.message) for w in warns
